@@ -23,6 +23,7 @@ Python → Lean
                                        codec's own default)
 * `_detect_compressor(fileobj)`      : `detect`
 * `dump` / `load` end to end, with `pickle`, `unpickle` and the codecs as parameters : `dump`, `load` over `Env`
+* `_detect_compressor` / `load` on an open file object whose cursor is at `pos` : `sniff`, `loadAt`
 
 Import-free (but for the generated table), total, computable.
 -/
@@ -286,5 +287,27 @@ def load {Obj : Type} (E : Env Obj) (_fileName : String) (file : Bytes) : Option
   | .compat => none
   | .method n => (E.decompress n file).bind E.unpickle
   | .notCompressed => E.unpickle file
+
+/-! ### `load` from an OPEN FILE OBJECT whose cursor is at `pos` (a dump written after an application header,
+several dumps back to back in one file) -/
+
+/-- `_detect_compressor(fileobj)` with the cursor at `pos`: what it answers and where the cursor is afterwards.
+`peekable` (`hasattr(fileobj, "peek")`: buffered files): `first_bytes = fileobj.peek(max_prefix_len)` — the cursor
+does not move, but `peek` returns what the read buffer happens to hold after the cursor, `peeked` bytes (at least
+one unless at end of file; the buffer is refilled only when it is empty), NOT necessarily `max_prefix_len`.
+Otherwise (raw files, `io.BytesIO`, wrappers): `first_bytes = fileobj.read(max_prefix_len); fileobj.seek(0)` —
+the object is REWOUND TO BYTE 0 (intended: joblib's tests do `f = io.BytesIO(); dump(obj, f); load(f)`), while the
+magic number was looked for where the cursor was. -/
+def sniff (peekable : Bool) (peeked : Nat) (file : Bytes) (pos : Nat) : Detected × Nat :=
+  if peekable then (detect ((file.drop pos).take peeked), pos)
+  else (detect (file.drop pos), 0)
+
+/-- `load(fileobj)`: sniff, then decode from wherever the cursor now is. -/
+def loadAt {Obj : Type} (E : Env Obj) (peekable : Bool) (peeked : Nat) (_fileName : String) (file : Bytes)
+    (pos : Nat) : Option Obj :=
+  match sniff peekable peeked file pos with
+  | (.compat, _) => none
+  | (.method n, p) => (E.decompress n (file.drop p)).bind E.unpickle
+  | (.notCompressed, p) => E.unpickle (file.drop p)
 
 end JoblibModel.DumpLoad
